@@ -33,8 +33,15 @@
   from the string is runtime behaviour of the interpreter.  Both rest on the oracle, which
   executes `eval(repr(v)) == v` on every generated value.
   Bubbles are not modelled (finding F8 lives in the oracle).
+
+  Derived values (round 3): `downgrade()` is modelled (Model/Downgrade.lean) and proved to keep the
+  triple coherent — `downgrade_total`, `downgrade_eqv_congr`, `downgrade_repr_congr`,
+  `downgrade_hash_congr`, `reprM_congr`, `box_downgrade_spec`, `reprBoxM_eq`; as far as true:
+  `downgraded_repr_not_inj` (the printed form of a downgraded value with adjoint types does not
+  determine it: finding F43b), so `repr_inj` is NOT claimed for downgraded values.
 -/
 import Proofs.ReprString
+import Proofs.Downgrade
 
 namespace DV.C03
 open DV
@@ -175,6 +182,55 @@ def ReprInjAnyData (ok : String → Prop) : Prop :=
     (reprTDiagram a).AllTok ok → (reprTDiagram b).AllTok ok →
     reprDiagram a = reprDiagram b → a.eqv b = true
 
+/-! ### Derived values: `downgrade()` keeps the triple coherent
+
+  `Box.downgrade` / `Diagram.downgrade` (Model/Downgrade.lean; monoidal.py:161-163, 328-332, 684-693):
+  the objects of the types are kept, a `Swap`/`Cup`/`Cap` becomes the generic box carrying the
+  name the class derives, the result is a `monoidal` value (types print their names only:
+  `reprDiagramM`).  A model value has no history, so "whatever was done to the value before"
+  is again the correspondence run (history stream of the check). -/
+
+/-- `downgrade()` is total on well-typed diagrams: same `dom`, `cod`, offsets, downgraded boxes. -/
+theorem downgrade_total (d : Diagram) (h : d.WF) :
+    ∃ d', d.downgrade = .ok d' ∧ d'.WF ∧ d'.dom = d.dom ∧ d'.cod = d.cod ∧
+      d'.boxes = d.boxes.map Box.downgrade ∧ d'.offsets = d.offsets := Diagram.downgrade_of_wf h
+
+/-- Equal diagrams have equal downgrades … -/
+theorem downgrade_eqv_congr (a b a' b' : Diagram) (h : a.eqv b = true)
+    (ha : a.downgrade = .ok a') (hb : b.downgrade = .ok b') : a'.eqv b' = true :=
+  Diagram.downgrade_eqv_congr h ha hb
+
+/-- … which print alike, hence hash alike (`__hash__ = hash(repr(self))`, any string hash `H`). -/
+theorem downgrade_repr_congr (a b a' b' : Diagram) (h : a.eqv b = true)
+    (ha : a.downgrade = .ok a') (hb : b.downgrade = .ok b') : reprDiagramM a' = reprDiagramM b' :=
+  Diagram.downgrade_repr_congr h ha hb
+theorem downgrade_hash_congr {α} (H : String → α) (a b a' b' : Diagram) (h : a.eqv b = true)
+    (ha : a.downgrade = .ok a') (hb : b.downgrade = .ok b') :
+    H (reprDiagramM a') = H (reprDiagramM b') := by rw [Diagram.downgrade_repr_congr h ha hb]
+
+/-- Any two `==` values of `monoidal` (downgraded or not) print alike. -/
+theorem reprM_congr (a b : Diagram) (h : a.eqv b = true) : reprDiagramM a = reprDiagramM b :=
+  DV.reprM_congr h
+
+/-- A downgraded box is a generic box with the same `dom`, `cod`, `data` and dagger flag;
+    downgrading is idempotent and leaves generic boxes alone. -/
+theorem box_downgrade_spec (b : Box) :
+    b.downgrade.kind = .gen ∧ b.downgrade.dom = b.dom ∧ b.downgrade.cod = b.cod ∧
+    b.downgrade.data = b.data ∧ b.downgrade.dagger = b.dagger ∧
+    b.downgrade.downgrade = b.downgrade ∧ (b.kind = .gen → b.downgrade = b) :=
+  ⟨b.downgrade_kind, b.downgrade_dom, b.downgrade_cod, b.downgrade_data.1, b.downgrade_data.2,
+    b.downgrade_idem, Box.downgrade_gen⟩
+
+/-- At winding number 0 the `monoidal` printer is the `rigid` one (the two families print alike). -/
+theorem reprBoxM_eq (b : Box) (hd : ∀ x ∈ b.dom, x.z = 0) (hc : ∀ x ∈ b.cod, x.z = 0) :
+    reprBoxM b = reprBox b := by simp [reprBoxM, reprBox, reprTBoxM_eq hd hc]
+
+/-- As far as true: injectivity of the printed form does NOT extend to downgraded values (`==`
+    compares the winding numbers that `downgrade` keeps, `monoidal.Ty.__repr__` drops them). -/
+theorem downgraded_repr_not_inj :
+    ∃ a b : Box, a.downgrade ≠ b.downgrade ∧ reprBoxM a.downgrade = reprBoxM b.downgrade :=
+  DV.reprBoxM_not_inj
+
 /-! ### Non-vacuity -/
 
 private def x : Ob := ⟨"'x'", 0⟩
@@ -196,6 +252,14 @@ example : reprDiagram F.dagger =
     "Box('f', Ty('x'), Ty(Ob('y', z=-1), Ob('y', z=-1)), data=[1, 2]).dagger()" := by rfl
 example : reprDiagram (Diagram.id [x, yl]) = "Id(Ty('x', Ob('y', z=-1)))" := by rfl
 example : (Val.box f).repr = (Val.diag F).repr := by rfl
+
+-- downgrade of a rigid diagram with a swap on adjoint types: the swap becomes a generic box named
+-- by `str` of its types, the winding numbers are no longer printed
+private def sw : Box := { kind := .swap, name := "-", dom := [x, yl], cod := [yl, x] }
+example : (Diagram.ofBox sw).downgrade.toOption.map reprDiagramM =
+    some "Box('Swap(x, y.l)', Ty('x', 'y'), Ty('y', 'x'))" := by decide
+example : (Diagram.ofBox sw).WF :=
+  ⟨rfl, rfl, rfl, rfl, by simp [LArrow.WF, Chain, Diagram.ofBox, Layer.dom, Layer.cod]⟩
 
 -- the hypotheses of `repr_inj` are met by a concrete three-box rigid diagram with a daggered box
 -- and numeric data
